@@ -252,9 +252,30 @@ def _price(ref, off, tick):
     return max(ref + off * tick, tick)
 
 
-def make_strategy(symbol, script, ctx):
-    from jesse.strategies import Strategy
+class _CtxProxy:
+    """Stands for 'the context of the session being run': lets one strategy CLASS serve several sessions (C11 passes the same class
+    object to several research.backtest calls, as a user does)."""
+
+    def __getattr__(self, k):
+        return getattr(CURRENT[0], k)
+
+    def __setattr__(self, k, v):
+        setattr(CURRENT[0], k, v)
+
+
+REUSE_CLASSES = [False]  # set by the C11 child: equal (symbol, script) -> the same class object for every call of the process
+_CLASS_MEMO = {}
+
+
+def make_strategy(symbol, script, real_ctx):
+    from jesse.strategies import Strategy, cached
     from jesse.store import store
+    import json as _json
+    memo_key = (symbol, _json.dumps(script, sort_keys=True, default=str))
+    if REUSE_CLASSES[0] and memo_key in _CLASS_MEMO:
+        real_ctx.strategies[symbol] = _CLASS_MEMO[memo_key]
+        return _CLASS_MEMO[memo_key]
+    ctx = _CtxProxy() if REUSE_CLASSES[0] else real_ctx
     rows = script.get('rows', [])
     tick = script['tick']
     unit = script['unit']
@@ -300,11 +321,23 @@ def make_strategy(symbol, script, ctx):
         def _gate_open(self):
             # optional: the decision also depends on a non-sequential, window-start dependent indicator value (on-balance volume over
             # what slice_candles keeps): whatever changes the indicator window changes the orders
+            if script.get('shared'):
+                # the documented cross-route scratch pad: every step counts itself there, decisions read the count
+                if self.shared_vars.get('vf_steps', 0) % 4 == 3:
+                    return False
+            if script.get('cached') and int(round(self._vf_level() / tick)) % 2 == 1:
+                return False
             if script.get('gate') != 'obv':
                 return True
             import jesse.indicators as ta
-            v = ta.obv(self.candles)
+            # on the 1m series: it is the one that outgrows the configured window (warm_up_candles) after a few minutes
+            v = ta.obv(self.get_candles(self.exchange, self.symbol, '1m'))
             return (not np.isfinite(v)) or int(abs(v)) % 3 != 0
+
+        @cached
+        def _vf_level(self):
+            # jesse's per-candle memo decorator for strategy methods
+            return float(self.price)
 
         def should_long(self):
             return self._row().get('act') == 'long' and self._gate_open()
@@ -430,6 +463,12 @@ def make_strategy(symbol, script, ctx):
                     newp = arr[0, 1] + sgn * a.get('off', 1) * tick
                     if newp > 0:
                         arr[0, 1] = newp
+            elif k == 'clear':
+                # a declaration without rows withdraws the exits of that kind
+                if a.get('which') == 'sl' and self.stop_loss is not None:
+                    self.stop_loss = []
+                elif a.get('which') == 'tp' and self.take_profit is not None:
+                    self.take_profit = []
             elif k == 'add':
                 pts = [(unit * a.get('frac', 1), _price(self.price, (-1 if long else 1) * a.get('off', 0), tick))]
                 if long:
@@ -464,6 +503,8 @@ def make_strategy(symbol, script, ctx):
             self._obs('on_cancel')
 
         def before(self):
+            if script.get('shared'):
+                self.shared_vars['vf_steps'] = self.shared_vars.get('vf_steps', 0) + 1
             self._obs('before')
 
         def after(self):
@@ -474,6 +515,8 @@ def make_strategy(symbol, script, ctx):
             self._obs('before_terminate')
 
         def terminate(self):
+            if script.get('cached'):
+                self._vf_level()
             self._obs('terminate')
 
         def hyperparameters(self):
@@ -484,7 +527,9 @@ def make_strategy(symbol, script, ctx):
             return script.get('dna', '')
 
     Scripted.__name__ = 'Scripted_' + symbol.replace('-', '_')
-    ctx.strategies[symbol] = Scripted
+    real_ctx.strategies[symbol] = Scripted
+    if REUSE_CLASSES[0]:
+        _CLASS_MEMO[memo_key] = Scripted
     return Scripted
 
 
@@ -583,7 +628,7 @@ def run(spec, obs='light', clean_globals=True, check_args=False):
     _ARMED[0] = True
     try:
         result = research.backtest(config, routes, data, candles, warmup_candles=warm, hyperparameters=hp_arg,
-                                   fast_mode=bool(spec.get('fast')))
+                                   fast_mode=bool(spec.get('fast')), **({'generate_logs': True} if spec.get('logs') else {}))
     except Exception as e:  # noqa
         import traceback
         error = dict(type=type(e).__name__, msg=str(e)[:500], tb=traceback.format_exc()[-1500:])
